@@ -440,3 +440,23 @@ def dispatch_chain(body: Sequence[ast.stmt]):
             return out, None
         i += 1
     return out, stmts[i:]
+
+
+def bound_args(repo, call: ast.Call, callee_params: Sequence[str]) -> Optional[List[Optional[ast.expr]]]:
+    """arguments of `call` in the order of `callee_params` (positional and keyword spellings alike); None when the
+    call uses * / ** or an unknown keyword"""
+    if any(isinstance(a, ast.Starred) for a in call.args) or any(k.arg is None for k in call.keywords):
+        return None
+    out: List[Optional[ast.expr]] = [None] * len(callee_params)
+    if len(call.args) > len(callee_params):
+        return None
+    for i, a in enumerate(call.args):
+        out[i] = a
+    for k in call.keywords:
+        if k.arg not in callee_params:
+            return None
+        i = list(callee_params).index(k.arg)
+        if out[i] is not None:
+            return None
+        out[i] = k.value
+    return out
